@@ -2,6 +2,7 @@
 //! written out so that the supervisor can report it.
 
 use std::cell::Cell;
+use std::sync::atomic::{AtomicBool, Ordering};
 use std::sync::OnceLock;
 
 thread_local! {
@@ -9,6 +10,7 @@ thread_local! {
 }
 
 static CRASH_PATH: OnceLock<std::ffi::CString> = OnceLock::new();
+static WRITING: AtomicBool = AtomicBool::new(false);
 
 /// Publish the serialised case this thread is about to run. The buffer must stay alive until
 /// `clear_current`.
@@ -23,14 +25,20 @@ pub fn clear_current() {
 extern "C" fn handler(sig: libc::c_int) {
     unsafe {
         let (p, n) = CURRENT.try_with(|c| c.get()).unwrap_or((std::ptr::null(), 0));
-        if let Some(path) = CRASH_PATH.get() {
-            let fd = libc::open(path.as_ptr(), libc::O_WRONLY | libc::O_CREAT | libc::O_TRUNC, 0o644);
-            if fd >= 0 {
-                if !p.is_null() {
+        // Heap damage done by a case on one thread tends to bring down other threads as well, also
+        // threads that are between two cases. Only the first thread that has a case writes the
+        // record; a thread without one must not truncate it, and gives the others a moment to
+        // write theirs before the process ends.
+        if !p.is_null() && !WRITING.swap(true, Ordering::SeqCst) {
+            if let Some(path) = CRASH_PATH.get() {
+                let fd = libc::open(path.as_ptr(), libc::O_WRONLY | libc::O_CREAT | libc::O_TRUNC, 0o644);
+                if fd >= 0 {
                     let _ = libc::write(fd, p as *const libc::c_void, n);
+                    libc::close(fd);
                 }
-                libc::close(fd);
             }
+        } else {
+            libc::usleep(500_000);
         }
         let msg = b"gcverif: fatal signal while running a case\n";
         let _ = libc::write(2, msg.as_ptr() as *const libc::c_void, msg.len());
